@@ -152,6 +152,8 @@ class HarnessAbort(BaseException):
 
 RUN_TAPE_BUDGET = 30_000
 RETRY_FACTOR = 15        # a case that exhausts the budget is run once more with this many times the budget before it is called ABORT
+RUNAWAYS = [0]           # retries that *still* did not finish: after three of them the implementation is taken to be running away and
+                         # further budget-exhausting cases are called ABORT at once (keeps a check on a broken tree within minutes)
 LAST = {}              # observations of the most recent auth_impl call (tapes handed to run_tape)
 CASE_SECONDS = 6.0          # generous: a loaded machine must never turn a slow case into an ABORT (the call budget is the deterministic bound)
 
@@ -254,8 +256,9 @@ def render(status, stack, cache, log, cnt, rand):
 
 def run_impl(cfg: Cfg, cache_in: dict, script: bytes) -> str:
     o = _run_impl(cfg, cache_in, script, 1)
-    if o.startswith('ABORT'):
+    if o.startswith('ABORT') and RUNAWAYS[0] < 3:
         o = _run_impl(cfg, cache_in, script, RETRY_FACTOR)      # legitimately heavy (but terminating) scripts exist: give them room once
+        if o.startswith('ABORT'): RUNAWAYS[0] += 1
     return o
 
 
@@ -283,8 +286,9 @@ def _run_impl(cfg: Cfg, cache_in: dict, script: bytes, factor: int) -> str:
 
 def auth_impl(cfg: Cfg, cache_in: dict, scripts) -> str:
     o = _auth_impl(cfg, cache_in, scripts, 1)
-    if o.startswith('RAISED:HarnessAbort'):
+    if o.startswith('RAISED:HarnessAbort') and RUNAWAYS[0] < 3:
         o = _auth_impl(cfg, cache_in, scripts, RETRY_FACTOR)
+        if o.startswith('RAISED:HarnessAbort'): RUNAWAYS[0] += 1
     return o
 
 
